@@ -980,6 +980,20 @@ where
     }
 }
 
+#[cfg(griddle_verif)]
+impl<T, S> HashSet<T, S> {
+    /// Snapshot of the two-table state, for external verification harnesses.
+    pub fn verif_state(&self) -> crate::verif::VerifState {
+        self.map.verif_state()
+    }
+
+    /// Calls `f(in_main, element)` for every element, main table first, then the old table in
+    /// the cached iterator's order.
+    pub fn verif_for_each(&self, mut f: impl FnMut(bool, &T)) {
+        self.map.verif_for_each(|in_main, k, _| f(in_main, k))
+    }
+}
+
 impl<T, S> PartialEq for HashSet<T, S>
 where
     T: Eq + Hash,
